@@ -2,7 +2,8 @@ SPECIFICATION Spec
 CONSTANTS
   Flushers = {F1, F2, F3}
   Writer = W
+  SharedResult = FALSE
   WatchDone = TRUE
-INVARIANTS TypeOK CtxOnlyIfExpired
-PROPERTIES LoopComesBack
+INVARIANTS TypeOK CtxOnlyIfExpired OwnResult
+PROPERTIES LoopComesBack EveryCallReturns LiveCallServed
 CHECK_DEADLOCK FALSE
